@@ -37,6 +37,13 @@ class World:
             return self.cont([float(i + 1) for i in range(n)])
         q = lambda u: ObtainQuantity(u, "length")
         if op == "Ctor":
+            f = c.get("form", "")
+            if f == "category":
+                return FixedArray(c["d"], "length", vals(c["n"]), c["u"])
+            if f == "quantity":
+                return FixedArray(c["d"], q(c["u"]), vals(c["n"]))
+            if f == "kwvalues":
+                return FixedArray(c["d"], q(c["u"]), values=vals(c["n"])) if c["n"] % 2 else FixedArray(c["d"], "length", values=vals(c["n"]), unit=c["u"])
             return FixedArray(c["d"], vals(c["n"]), c["u"])
         if op == "CtorDefault":
             return FixedArray(c["d"], "length")
